@@ -29,6 +29,7 @@ def cases_of(r, rng, default_parts=("time", "level", "caller", "message")):
         # classes (strings / integers written by hand) keep the default settings they were written for
         tset = rng.randrange(NTSETS) if "time-real" in vc and not any(x in vc for x in ("time-rfc", "time-bad", "time-unix")) else 0
         out.append({"ev": c["ev"], "vc": vc, "cfg": c["cfg"], "tset": tset, "defaultparts": tuple(c["cfg"]["parts"]) == tuple(default_parts) and rng.random() < 0.5})
+        out[-1]["rename"] = out[-1]["defaultparts"] and rng.random() < 0.4
     return out
 
 
